@@ -29,6 +29,17 @@ class World:
         self.vs += [Universe() for _ in range(nuni)]
         self.uidx = list(range(nplain, nplain + nuni))
         self.ls = []
+        self.bulk_members = []   # vertices created by "bulk_u": members of universes but not part of the pool
+
+    @classmethod
+    def from_pool(cls, vs, ls, uidx=()):
+        """A world over already existing objects (e.g. un-pickled in another process)."""
+        from eglib import classes
+
+        w = cls.__new__(cls)
+        w.classes = classes
+        w.vs, w.ls, w.uidx, w.bulk_members = list(vs), list(ls), list(uidx), []
+        return w
 
     # ------------------------------------------------------------ resolution
     def end(self, x):
@@ -80,6 +91,16 @@ class World:
                 return None
             lst = [x % nv for x in (i, j, k)][: k % 4]
             return ("newu", lst, (k // 4) % 3)
+        if name == "bulk":
+            # K parallel links from vs[i] to vs[j] at once (crosses size thresholds of per-vertex indexes)
+            K = [7, 8, 9, 12, 33][k % 5]
+            return ("bulk", i % nv, j % nv, (k // 5) % 6, K)
+        if name == "bulk_u":
+            # K fresh vertices join universe u at once (crosses size thresholds of membership indexes)
+            if not self.uidx:
+                return None
+            K = [7, 31, 32, 33, 40][k % 5]
+            return ("bulk_u", self.uidx[i % len(self.uidx)], K)
         if name == "adj":
             # adjacency builders used as mutators of EXISTING vertices: k bit0 -> matrix form
             return ("adj", i % nv, j % nv, (k >> 1) % 6, k & 1)
@@ -124,6 +145,23 @@ class World:
             return out
         if name == "unlink":
             return explicit.unlink(self.vs[r[1]], self.vs[r[2]], destroy=r[3])
+        if name == "bulk":
+            _, a, b, ci, K = r
+            for _ in range(K):
+                self.ls.append(C.LINK_CLASSES[ci](self.vs[a], self.vs[b]))
+            return None
+        if name == "bulk_u":
+            from edgegraph.structure import Vertex as _V
+
+            _, u, K = r
+            extra = [_V(attributes={"i": 5000 + n}) for n in range(K)]
+            for x in extra:
+                if len(self.bulk_members) % 2:
+                    self.vs[u].add_vertex(x)
+                else:
+                    x.add_to_universe(self.vs[u])
+                self.bulk_members.append(x)
+            return None
         if name == "adj":
             from edgegraph.builder import adjlist, adjmatrix
 
@@ -185,11 +223,12 @@ class World:
     def snapshot(self):
         """Observable structure through public accessors only, as pool indices."""
         vi, li = self.index_maps()
+        bi = {id(x): n for n, x in enumerate(self.bulk_members)}
         g = lambda m, o: None if o is None else m.get(id(o), "?")
         out = {
             "links_of": [[g(li, l) for l in v.links] for v in self.vs],
             "unis_of": [[g(vi, u) for u in v.universes] for v in self.vs],
             "ends": [[g(vi, x) for x in l.vertices] for l in self.ls],
-            "members": {str(u): [g(vi, x) for x in self.vs[u].vertices] for u in self.uidx},
+            "members": {str(u): [g(vi, x) if id(x) in vi else ("b%d" % bi[id(x)] if id(x) in bi else "?") for x in self.vs[u].vertices] for u in self.uidx},
         }
         return out
